@@ -547,11 +547,23 @@ pub fn check(
                 let ok_old = unchanged || matches!((before_node, &seen.node), (Some(a), b) if a == b);
                 let ok_new = now == new.as_slice();
                 let ok_prefix = new.starts_with(now);
+                // an implementation that overwrites in place and cuts the rest off afterwards
+                // leaves the beginning of the new text followed by the rest of the old one
+                let old_bytes: Option<&[u8]> = match before_node {
+                    Some(Node::File(b)) => Some(b.0.as_slice()),
+                    _ => None,
+                };
+                let ok_overlay = old_bytes.map_or(false, |old| {
+                    let k = now.iter().zip(new.iter()).take_while(|(a, b)| a == b).count();
+                    // the longest common prefix with the new text is the only candidate that matters:
+                    // from there on everything must be the old text at the same offsets
+                    (0..=k).rev().take(64).any(|k| now.len() == old.len().max(k) && k <= now.len() && now[k..] == old[k.min(old.len())..])
+                });
                 if !ok_new {
                     unrecovered_write_failure = true;
                 }
-                if !(ok_old || ok_new || ok_prefix) {
-                    v.push(viol(&["C15"], "I15.1-torn", step, format!("{:?}: after an injected write failure / crash the file holds neither its old bytes, nor a prefix of the formatted text, nor the formatted text", key)));
+                if !(ok_old || ok_new || ok_prefix || ok_overlay) {
+                    v.push(viol(&["C15"], "I15.1-torn", step, format!("{:?}: after an injected write failure / crash the file holds neither its old bytes, nor a prefix of the formatted text (alone or followed by the rest of the old text), nor the formatted text", key)));
                 }
             }
             FileExpect::UnchangedOrExactly(new) => {
